@@ -18,7 +18,19 @@ SpanHi(e, c1) == LET c == c1[Len(c1)]
                      a == Max2(c.maxt, c.ts[Len(c.ts)])
                  IN IF e.hasblk THEN Max2(a, e.blk1[2]) ELSE a
 
-SeriesClauses(e, o) ==
+(* Phase 2: a native histogram series (in.series[i].kind = "hist"; chunks are [mint, maxt,   *)
+(* ts, cnt, hsum, hctr] with vectors <<count, sum, buckets>>).  Of the statement "total        *)
+(* sample count" and "total sum" apply (the sum aggregate is the component-wise sum of the     *)
+(* histograms; there is no min / max aggregate), and the timestamp clauses.                     *)
+HistClauses(e, s, o) ==
+    LET zero == [i \in 1..(s.k + 2) |-> 0] IN
+    IF o.c1 = <<>> THEN (IF o.c2 = <<>> THEN {} ELSE {"histogram-totals-conserved"})
+    ELSE
+      (IF HTotalsConserved(o.c1, o.c2, zero) THEN {} ELSE {"histogram-totals-conserved"})
+      \cup (IF OutputsOrdered(o.c2) THEN {} ELSE {"output-timestamps-ordered"})
+      \cup (IF LastWindowHasOutput(o.c1, o.c2, 3600000) THEN {} ELSE {"last-output-in-window-of-last-input-sample"})
+
+FloatClauses(e, o) ==
     IF o.c1 = <<>> THEN (IF o.c2 = <<>> THEN {} ELSE {"totals-conserved"})   \* nothing in, nothing out
     ELSE
       \* "preserves the total sample count, the total sum, the overall minimum and the overall
@@ -56,14 +68,16 @@ BlockClauses(e) ==
 Judge(e) ==
     IF e.got.kind # "ok" THEN {"re-downsampling-succeeds"}
     ELSE IF ~e.ok \/ ~e.aligned THEN {"totals-conserved"}    \* integers in, integers out; one timestamp per output
-    ELSE UNION { SeriesClauses(e, e.obs[i]) : i \in DOMAIN e.obs } \cup BlockClauses(e)
+    ELSE UNION { IF e.in.series[i].kind = "hist" THEN HistClauses(e, e.in.series[i], e.obs[i])
+                                                    ELSE FloatClauses(e, e.obs[i]) : i \in DOMAIN e.obs }
+         \cup BlockClauses(e)
 
 (* Block-level conformance with what Downsample does today (never a verdict): meta copied     *)
 (* from the source except resolution, series without numbers not written, stats = index.       *)
 BlockDrift(e) ==
     /\ e.got.kind = "ok" /\ e.hasblk
     /\ LET src == e.blocks.src  b1 == e.blocks.b1  b2 == e.blocks.b2
-           live == { i \in DOMAIN e.in.series : \E k \in DOMAIN e.in.series[i].ks : e.in.series[i].ks[k] = "F" }
+           live == { i \in DOMAIN e.in.series : \E k \in DOMAIN e.in.series[i].ks : e.in.series[i].ks[k] \in {"F", "H"} }
        IN ~(/\ b1.mint = src.mint /\ b1.maxt = src.maxt /\ b2.mint = src.mint /\ b2.maxt = src.maxt
             /\ b1.nseries = Cardinality(live) /\ b2.nseries = Cardinality(live)
             /\ b1.statseries = b1.nseries /\ b2.statseries = b2.nseries
@@ -75,12 +89,18 @@ Drift(e) ==
     /\ e.got.kind = "ok" /\ e.ok /\ e.aligned /\ e.in.mode \in {"loop", "chunks"}
     /\ LET o == e.obs[1] IN
        o.c1 # <<>> /\ o.c2 # AlgoAggr(o.c1, 3600000, Min2(e.in.nc2, Len(o.c1)))
+HDrift(e) ==
+    /\ e.got.kind = "ok" /\ e.ok /\ e.aligned /\ e.in.mode = "hloop"
+    /\ LET o == e.obs[1]  s == e.in.series[1]
+           raw == [ts |-> s.ts, ks |-> s.ks, hv |-> s.hv, gauge |-> s.gauge]
+           p1 == HAlgoRaw(raw, 300000, e.in.nc1)
+       IN ~(o.c1 = p1 /\ (p1 # <<>> => o.c2 = HAlgoAggr(p1, 3600000, Min2(e.in.nc2, Len(p1)), s.gauge)))
 
 VARIABLE l
 TraceInit == l = 1
 TraceNext == /\ l <= TraceLen
              /\ CaseReject(l, Trace[l], Judge(Trace[l]))
-             /\ (IF Drift(Trace[l]) \/ BlockDrift(Trace[l]) THEN PrintT(<<"DRIFT", l, Trace[l]["case"]>>) ELSE TRUE)
+             /\ (IF Drift(Trace[l]) \/ HDrift(Trace[l]) \/ BlockDrift(Trace[l]) THEN PrintT(<<"DRIFT", l, Trace[l]["case"]>>) ELSE TRUE)
              /\ l' = l + 1
 TraceSpec == TraceInit /\ [][TraceNext]_l
 TraceAccepted == TLCGet("stats").diameter = TraceLen + 1
